@@ -5,7 +5,7 @@ from fractions import Fraction
 import torch
 
 EVIDENCE = dict(
-    bounds="scalar kernel: every finite x and every finite positive scale whose grid {s*v} is representable in the working dtype (s*max|v| finite; for float8 additionally s*min_subnormal8 >= 2 ulp_min(dtype) in the re-quantization clause), dtypes float16/bfloat16/float32, qtypes qint8/qfloat8_e4m3fn/qfloat8_e5m2; float8 nearest-grid clause split over every binade of the 8-bit format; tensor plumbing: shapes of rank 1..4 with dims <= 3 (covering subset in quick), contiguous/transposed/step-2, axis in {None,0,-1}",
+    bounds="scalar kernel: every finite x and every finite positive scale whose grid {s*v} is representable in the working dtype (s*max|v| finite; for float8 additionally s*min_subnormal8 >= 2 ulp_min(dtype) in the re-quantization clause), dtypes float16/bfloat16/float32, qtypes qint8/qfloat8_e4m3fn/qfloat8_e5m2; float8 nearest-grid clause split over every binade of the 8-bit format; tensor plumbing: shapes of rank 1..4 with dims <= 3 (covering subset in quick), contiguous/transposed/step-2, axis in {None,0,-1}; conversion chain (BIT, float8 qtypes): every finite value of the working dtype inside the float8 range as the quotient fl(x/s)",
     outside="shapes beyond rank 4 / dim 3; CUDA/MPS kernels; scales whose grid is not representable in the working dtype (no implementation can return those grid points); bfloat16 re-quantization (excluded by the property); float32 bit-exact (BIT) re-quantization - float32 is carried by RERR",
     assumptions=[
         "RERR: standard model of IEEE arithmetic (|e|<=2^-p relative, |d|<=2^(emin-p) absolute per operation); unsat is a proof for all executions without overflow, overflow is covered by the BIT saturation/finiteness clauses",
@@ -241,6 +241,29 @@ def run_case(case, res):
             if v == "sat":
                 xv, sv = api.model_values(b, model, X), api.model_values(b, model, S)
                 res.candidate(name, "BIT", enc(api.tensor_from_values(xv, (1,), dt), api.tensor_from_values(sv, (), dt)), exact=not name.startswith(("cast-in-range", "no-intermediate")))
+        if not isint:
+            # conversion chain, bit-exact: cut the quotient fl(x/s) to a free value v of the working dtype; whatever the code does
+            # after the division (clamp, casts) must land on a float8 value that is as close to v as the single correctly rounded
+            # conversion (decides what RERR cannot: RERR's cast contract is per cast, so a double rounding through a narrower
+            # float type is an abstract counterexample there and a concrete one here)
+            quos = api.find_nodes([C[0]], lambda t: t.op == "div")
+            if len(quos) == 1:
+                (cq,), qmap, _ = api.cut(ctx, [C[0]], quos, "quo")
+                b2 = bit.Bit(ctx)
+                vz, c8 = b2.tr(qmap[quos[0].uid]), b2.tr(cq)
+                f64 = z3.FPSort(11, 53)
+                up = lambda e: z3.fpToFP(z3.RNE(), e, f64)  # noqa
+                n8 = bit.to_f8(vz, vz.sort(), qt.dtype)
+                dist = lambda e: z3.fpAbs(z3.fpSub(z3.RNE(), up(e), up(vz)))  # noqa  (exact in float64)
+                tolz = z3.fpAdd(z3.RNE(), z3.fpMul(z3.RNE(), z3.FPVal(float(16 * u), f64), z3.fpAbs(up(vz))), z3.FPVal(float(8 * u + 32 * eta), f64))
+                goal = z3.fpGT(dist(c8), z3.fpAdd(z3.RNE(), dist(n8), tolz))
+                v, secs, model = api.solve(b2.side + [fin(vz), z3.fpLEQ(z3.fpAbs(vz), z3.FPVal(qmax, vz.sort())), goal], 120)
+                res.query("conversion-chain-is-one-nearest-rounding", "BIT", v, secs, sub="quotient cut to a free value of the working dtype")
+                if v == "sat":
+                    qv = api.model_values(b2, model, [qmap[quos[0].uid]])
+                    res.candidate("conversion-chain-is-one-nearest-rounding", "BIT", enc(api.tensor_from_values(qv, (1,), dt), torch.tensor(1.0, dtype=dt)), exact=True)
+            else:
+                res.query("conversion-chain-is-one-nearest-rounding", "BIT", "unknown", 0.0, note=f"{len(quos)} divisions found in the code's term")
         v, secs, _ = api.solve(pre + [z3.fpGEQ(d, z3.FPVal(qmax, srt))], 30)
         res.query("vacuity-saturating-region-reachable", "BIT", "unsat" if v == "sat" else "unknown", secs, symbolic=False)
         # BIT back end vs evaluator on the seed
